@@ -658,6 +658,12 @@ theorem hole_interior_off_rings (poly : Poly) (hv : polyValid poly = true) (p : 
     ∀ h ∈ poly.ints, ∀ h' ∈ poly.ints, ringPos p h = .inside → onAnySeg p (segs h') = false :=
   Geo.Proofs.WIND.hole_inside_off_rings hv p
 
+example : onAnySeg ⟨3, 3⟩ (segs [⟨4, 4⟩, ⟨8, 6⟩, ⟨8, 8⟩, ⟨6, 8⟩, (⟨4, 4⟩ : Pt)]) = false :=
+  hole_interior_off_rings ⟨[⟨0, 0⟩, ⟨10, 0⟩, ⟨10, 10⟩, ⟨0, 10⟩, ⟨0, 0⟩],
+      [[⟨2, 2⟩, ⟨4, 2⟩, ⟨4, 4⟩, ⟨2, 4⟩, ⟨2, 2⟩], [⟨4, 4⟩, ⟨8, 6⟩, ⟨8, 8⟩, ⟨6, 8⟩, ⟨4, 4⟩]]⟩
+    (by decide +kernel) ⟨3, 3⟩ [⟨2, 2⟩, ⟨4, 2⟩, ⟨4, 4⟩, ⟨2, 4⟩, ⟨2, 2⟩] (by simp)
+    [⟨4, 4⟩, ⟨8, 6⟩, ⟨8, 8⟩, ⟨6, 8⟩, ⟨4, 4⟩] (by simp) (by decide +kernel)
+
 /-- [T] **Polygon, OGC-valid: `coordinate_position` is the specification's point location at every
 point** (closed rings, H1 and H2 are consequences of `polyValid`; no further hypothesis). -/
 theorem coordPos_polygon_eq_locate_valid (poly : Poly) (p : Pt) (hv : polyValid poly = true) :
